@@ -183,12 +183,22 @@ def check_once(c, mod, fun, args):
         S._NOW[id(pre[k])] = live[k]
     exc = None
     result = None
+    S._GHOST["normal_calls"] = []
+    real_normal = np.random.normal
+
+    def rec_normal(loc=0.0, scale=1.0, size=None):
+        r = real_normal(loc, scale, size)
+        S._GHOST["normal_calls"].append(dict(loc=loc, scale=deep_copy(scale), size=size, result=r))
+        return r
+    np.random.normal = rec_normal
     with warnings.catch_warnings():
         warnings.simplefilter("ignore")
         try:
             result = fun(**live)
         except Exception as e:      # noqa
             exc = e
+        finally:
+            np.random.normal = real_normal
     env = dict(pre)
     if exc is not None:
         cls = type(exc).__name__
@@ -210,6 +220,8 @@ def check_once(c, mod, fun, args):
             return dict(clause=f"raises-if::{e}:{cl}", observed=f"returned normally: {repr(result)[:200]}")
     env["result"] = result
     for name in c.ensures:
+        if name in c.opts.get("static_only", ()):
+            continue
         try:
             ok = bool(call_clause(c.funcs[name], env))
         except Exception as e:      # a clause that cannot be evaluated on the result is a violated clause
